@@ -11,7 +11,7 @@
    establishes is proved here for all byte strings (C02_check_passes_means) and for
    all answers (C02_check_sound). *)
 From PV Require Import Discipline ProgTac PathProofs DisciplineProofs FaultProofs EscapeProofs FSModel FSProofs.
-From PV Require Import Hoare CheckProofs.
+From PV Require Import Hoare CheckProofs DentryProofs.
 Open Scope N_scope.
 
 Theorem C02_complete_only_via_fin :
@@ -76,6 +76,37 @@ Theorem C02_check_current_is_that_check :
     OpathM.check_current fz o2 pfuel gh cur root exp = check_current_gen (ProcfsM.as_unsafe_path fz o2 pfuel gh) cur root exp.
 Proof. exact check_current_is_gen. Qed.
 
+(* ... and why that comparison means "inside": in the kernel's dentry forest at the instant
+   of the second read (sibling names unique; [up] = d_path; assumption A1: the rendering of
+   the root read first is still the root's), a `current` whose rendering passes the
+   comparison IS the object reached from the root by walking down the expected components,
+   so the root is its ancestor |exp| levels up.  The forest is a premise, not a model of
+   /repo: this is the kernel contract the schedule runs of tools/props/C02.py exercise. *)
+Theorem C02_passing_check_means_inside :
+  forall f root cur root_path cur_path exp,
+    fwf f -> renders f root root_path -> renders f cur cur_path ->
+    path_eq cur_path (OpathM.push_all root_path ([DOT] :: exp)) = true -> Forall name_ok exp ->
+    desc f root exp cur /\ ancestor f (length exp) cur = Some root.
+Proof. exact check_means_inside. Qed.
+
+(* non-vacuity: /srv/root with a/b below it; object 4 (b) rendered sloppily still passes and is
+   found two levels below object 2 (the root) *)
+Definition C02_forest : forest :=
+  {| parent := fun o => match o with
+                        | 1%nat => Some (0%nat, b "srv") | 2%nat => Some (1%nat, b "root")
+                        | 3%nat => Some (2%nat, b "a") | 4%nat => Some (3%nat, b "b")
+                        | 5%nat => Some (1%nat, b "b")
+                        | _ => None end |}.
+Example C02_forest_example :
+  renders C02_forest 2 (b "/srv/root") /\ renders C02_forest 4 (b "/srv/root//a/./b/") /\
+  ancestor C02_forest 2 4 = Some 2%nat /\
+  (* object 5 = /srv/b, a directory moved out of the root: its rendering does not pass *)
+  renders C02_forest 5 (b "/srv/b") /\
+  path_eq (b "/srv/b") (OpathM.push_all (b "/srv/root") ([DOT] :: [b "a"; b "b"])) = false.
+Proof.
+  repeat split; try (exists 5%nat; vm_compute; reflexivity); vm_compute; reflexivity.
+Qed.
+
 Example C02_check_example :
   path_eq (b "/srv/root//a/./b/") (OpathM.push_all (b "/srv/root") ([DOT] :: [b "a"; b "b"])) = true /\
   nf (b "/srv/root//a/./b/") = [b "srv"; b "root"; b "a"; b "b"] /\
@@ -102,3 +133,4 @@ Print Assumptions C02_static_in_root.
 Print Assumptions C02_check_passes_means.
 Print Assumptions C02_check_sound.
 Print Assumptions C02_check_current_is_that_check.
+Print Assumptions C02_passing_check_means_inside.
